@@ -330,7 +330,6 @@ bool Instance::configure_tx_txin() {
     auto& wstack = tx->vin[txin_index].scriptWitness.stack;
     auto& scriptSig = tx->vin[txin_index].scriptSig;
     CScript scriptPubKey = txin->vout[txin_vout_index].scriptPubKey;
-    std::vector<const char*> push_del;
     btc_segwit_logf("got witness stack of size %zu\n", wstack.size());
     if (wstack.size() > 0) {
         // segwit
@@ -578,7 +577,8 @@ bool Instance::configure_tx_txin() {
                 fprintf(stderr, "witness stack item #%zu is %zu bytes (the limit for witness script inputs is %u)\n", i, wstack[i].size(), MAX_SCRIPT_ELEMENT_SIZE);
                 return false;
             }
-            push_del.push_back(strdup(HexStr(wstack[i]).c_str())); // TODO: use as is rather than hexing and dehexing
+            // as is: going through the text parser turns an item whose hex spelling is a decimal number (51, 1234) into that number
+            stack.push_back(wstack[i]);
         }
     } else {
         // legacy
@@ -587,11 +587,6 @@ bool Instance::configure_tx_txin() {
         successor_script = scriptPubKey;
     }
 
-    parse_stack_args(push_del);
-    while (!push_del.empty()) {
-        free((void*)push_del.back()); // allocated with strdup
-        push_del.pop_back();
-    }
 
     // // extract pubkeys from script
     // CScript::const_iterator it = script.begin();
